@@ -76,6 +76,70 @@ def e1_exhaustive_scan(F, r):
         r.fail("sample_best: exhaustive arm", f"the exhaustive leg scan is limited by {limiting or 'a missing try_fold'}: not every leg is evaluated", F.loc(sb_))
 
 
+MC = "vrp_core::construction::heuristics::evaluators::MultiContext"
+
+
+def p1_promote_law(F, r):
+    """multi-job search keeps the cheaper of two candidate placements: MultiContext::promote returns the operand with the smaller cost, an operand with a cost beats one
+    without, of two failures the one carrying the violation; it aborts (Break) iff the kept violation is a stopping one"""
+    from .. import ordeval as oe
+    pr = MC + "::promote"
+    if pr not in F.fns or MC not in F.adts:
+        raise AnchorError(pr)
+
+    def mc(tag, cost, viol):
+        v = oe.NONE if viol is None else oe.some(("agg", "vrp_core::models::goal::ConstraintViolation#ConstraintViolation", {"code": oe.sym(tag + "_code"), "stopped": ("bool", viol)}))
+        return ("agg", MC + "#MultiContext", {"violation": v, "start_index": oe.sym(tag + "_si"), "next_index": oe.sym(tag + "_ni"),
+                                             "cost": (oe.some(oe.sym(tag + "_cost")) if cost else oe.NONE), "activities": oe.sym(tag + "_acts")})
+    for lc in (0, 1):
+        for rc in (0, 1):
+            for lv in (None, False, True):
+                for rv in (None, False, True):
+                    if (lc and lv is not None) or (rc and rv is not None):
+                        continue       # a candidate with a cost carries no violation
+                    it = oe.Interp(F, pr, {1: mc("l", lc, lv), 2: mc("r", rc, rv)}, fresh=True, enum_results=True)
+                    inst0 = f"promote [left cost={'Some' if lc else 'None'}{'' if lv is None else ',viol'+('!' if lv else '')}; right cost={'Some' if rc else 'None'}{'' if rv is None else ',viol'+('!' if rv else '')}]"
+                    try:
+                        paths = it.explore()
+                    except oe.Undecided as e:
+                        r.fail(inst0, f"not evaluable: {e}", F.loc(pr))
+                        continue
+                    for p in paths:
+                        rel = [a[2] for a in p.assumptions if len(a) == 3 and isinstance(a[2], str) and a[0] != "switch" and a[2] in "LEG"]
+                        if not (p.ret and p.ret[0] == "cf" and p.ret[2] and p.ret[2][0] == "agg"):
+                            r.fail(inst0, f"unrecognised result {str(p.ret)[:80]}", F.loc(pr))
+                            continue
+                        kept = p.ret[2][2]
+                        acts = kept.get("activities")
+                        side = "left" if acts == oe.sym("l_acts") else ("right" if acts == oe.sym("r_acts") else "?")
+                        consistent = (kept.get("cost") == (oe.some(oe.sym("l_cost")) if lc else oe.NONE)) if side == "left" else ((kept.get("cost") == (oe.some(oe.sym("r_cost")) if rc else oe.NONE)) if side == "right" else False)
+                        inst = inst0 + (f" left{'<=>'['LEG'.index(rel[0])]}right" if rel else "")
+                        if not consistent:
+                            r.fail(inst, "the promoted candidate mixes fields of both operands (cost of one, activities of the other)", F.loc(pr))
+                            continue
+                        if lc and rc:
+                            want = {"L": ("left",), "G": ("right",), "E": ("left", "right")}.get(rel[0] if rel else "?", ())
+                        elif lc:
+                            want = ("left",)
+                        elif rc:
+                            want = ("right",)
+                        elif lv is not None and rv is None:
+                            want = ("left",)
+                        elif rv is not None and lv is None:
+                            want = ("right",)
+                        else:
+                            want = ("left", "right")
+                        if side not in want:
+                            r.fail(inst, f"keeps the {side} candidate, expected {' or '.join(want)}: the cheaper (or the only priced / the violating) candidate must survive", F.loc(pr))
+                            continue
+                        kv = lv if side == "left" else rv
+                        should_break = kv is True
+                        if (p.ret[1] == "Break") != should_break:
+                            r.fail(inst, f"{p.ret[1]} although the kept candidate's violation is {'a stopping one' if should_break else 'absent / not stopping'}", F.loc(pr))
+                        else:
+                            r.ok(inst, f"keeps {side}; {p.ret[1]}")
+
+
 def run(ctx):
     ctx.explanation = (
         "Soundness gate of the insertion evaluator: a reported success was evaluated by the complete constraint set on exactly that move on activity and "
@@ -91,6 +155,7 @@ def run(ctx):
     ctx.run("C01-G3", "success construction", c01.g3_success_construction, floor=12)
     ctx.run("C05-I1", "shadow insertion followed by accept_route_state", c05.i1_insert_then_accept, floor=2)
     ctx.run("C06-E1", "exhaustive scan: aborted only on `stopped`; every leg folded", e1_exhaustive_scan, floor=4)
+    ctx.run("C06-P1", "multi-job search keeps the cheaper candidate (MultiContext::promote law, finite evaluation)", p1_promote_law, floor=15)
     ctx.run("C01-W1", "time windows: admitted iff no arrival after its latest time; the scan is aborted (fail) only on target-independent facts", c01.w1_time_window_law, floor=1)
     ctx.run("C01-C1", "capacity: demand parts vs their load summaries; violation iff some load does not fit; abort only for static delivery", c01.c1_capacity_law, floor=5)
     ctx.run("C05-R1", "schedule recurrence of the forward pass", c05.r1_schedule_recurrence, floor=1)
